@@ -30,7 +30,7 @@ STRENGTHENED = {
 rows = []
 for name in sorted(os.listdir('/verif/seeded')):
     d = f'/verif/seeded/{name}'
-    if not os.path.isdir(d):
+    if not os.path.isdir(d) or not os.path.exists(d + '/meta.json'):
         continue
     meta = json.load(open(d + '/meta.json'))
     pid = name.split('_')[0]
